@@ -209,7 +209,41 @@ def run(tier):
         for nm in ftab:
             rep.check(nm in names, "table-current", "%s.%s" % (owner.split("::")[-1], nm), "the field table names a field that no longer exists")
     rep.floor("fields classified", nfields, 30)
+    loader_anchor_isolation(rep, F)
     return rep
+
+
+def loader_anchor_isolation(rep, F):
+    """'through the loading interface no anchor of an earlier document influences a later one': the loader's id -> node table is either
+    emptied at a document boundary, or the parser's ids never repeat within a stream (the counter has one writer, an increment)."""
+    owner = LOADER
+    ladt = F.adt(owner)
+    tables_ = [fld["name"] for v in ladt["variants"] for fld in v["fields"] if "Map<usize" in fld["ty"] or "Vec<" in fld["ty"] and "anchor" in fld["name"]]
+    if "anchor_map" not in tables_:
+        raise facts.MissingAnchor("the loader's anchor table (id -> node) was not found in %s" % owner)
+    cleared = []
+    for k, f in F.fns.items():
+        if f.crate != "saphyr":
+            continue
+        for w in cfg.field_writes(f, owner, "anchor_map"):
+            if w["kind"] == "borrow_mut" and w.get("use") and (w["use"]["callee"] or "").endswith("::clear"):
+                cleared.append(short(k))
+            if w["kind"] == "assign" and not f.name.startswith("new") and f.name != "default":
+                cleared.append(short(k))
+    cw = sorted(k for k, f in F.fns.items() if f.crate == "saphyr_parser" and cfg.field_writes(f, PARSER, "anchor_id_count")
+                and not f.name.startswith("new"))
+    mono = True
+    for k in cw:
+        f = F.fns[k]
+        for w in cfg.field_writes(f, PARSER, "anchor_id_count"):
+            e = cfg.expr_operand(f, w["stmt"]["rv"]["a"], 6) if w["kind"] == "assign" and w["stmt"]["rv"]["k"] == "use" else ("?",)
+            inc = e[0] == "place" and e[2] == [("field", "0")] and e[1][0] == "bin" and e[1][1] == "AddWithOverflow" and e[1][3][0] == "const" \
+                and isinstance(e[1][3][1], int) and e[1][3][1] > 0 and cfg.expr_fields(e[1][2]) == ["anchor_id_count"]
+            mono = mono and inc
+    rep.check(bool(cleared) or mono, "loader-anchor-isolation", "anchor_id_count~anchor_map",
+              "the loader keeps its id -> node table across documents and the parser's anchor ids can repeat within a stream (counter written by %s): "
+              "an alias can resolve to a node of an earlier document" % [short(x) for x in cw],
+              detail={"anchor_map_cleared_in": cleared, "counter_writers": [short(x) for x in cw]})
 
 
 def _borrow_block_of(f, call_bb, owner, nm):
